@@ -17,13 +17,15 @@ import (
 
 // Profile tunes the generator.
 type Profile struct {
-	MinOps, MaxOps int
-	Collide        float64 // probability that a record reuses a stored id / pair
-	Malformed      bool    // wild arguments
-	EmptyPayload   float64 // probability of an empty payload per record (finding C07-K2)
-	Saturate       bool    // C08: first fill one channel with > 384 distinct idempotency keys
-	MutWeight      int     // weight of mutating ops (out of 100)
-	AppendHeavy    bool    // C08: most mutations are appends
+	MinOps, MaxOps  int
+	Collide         float64 // probability that a record reuses a stored id / pair
+	Malformed       bool    // wild arguments
+	EmptyPayload    float64 // probability of an empty payload per record (finding C07-K2)
+	Saturate        bool    // C08: first fill one channel with > 384 distinct idempotency keys
+	MutWeight       int     // weight of mutating ops (out of 100)
+	AppendHeavy     bool    // C08: most mutations are appends
+	SaneCheckpoints bool    // C09: checkpoints never exceed the planner's log end
+	BatchRate       float64 // probability that a mutation is a multi-channel StoreAppendBatch
 }
 
 type planChan struct {
@@ -340,6 +342,44 @@ func (g *planner) cappOp(c int) Op {
 	return Op{K: "capp", C: c, Mode: mode, Recs: recs}
 }
 
+func (g *planner) cbatchOp() Op {
+	chans := g.r.Perm(NChans)
+	n := 2 + g.r.IntN(2)
+	var items []Item
+	for i := 0; i < n; i++ {
+		c := chans[i%NChans]
+		if vh.Chance(g.r, 0.06) {
+			c = chans[0] // same channel twice: every item of it is rejected
+		}
+		k := 1 + g.r.IntN(2)
+		if vh.Chance(g.r, 0.05) {
+			k = 0
+		}
+		recs := make([]Rec, k)
+		for j := range recs {
+			recs[j] = g.rec(c)
+			if vh.Chance(g.r, 0.2) {
+				recs[j].Flags = 4
+			}
+			// the same id in two items of one batch
+			if len(items) > 0 && len(items[0].Recs) > 0 && vh.Chance(g.r, g.p.Collide*0.5) {
+				recs[j].ID = items[0].Recs[0].ID
+			}
+		}
+		items = append(items, Item{C: c, Mode: vh.Pick(g.r, uint8(0), 0, 1), Recs: recs})
+	}
+	seen := map[int]int{}
+	for _, it := range items {
+		seen[it.C]++
+	}
+	for _, it := range items {
+		if seen[it.C] == 1 && g.plausible(it.C, it.Mode, it.Recs) {
+			g.noteAppend(it.C, it.Recs)
+		}
+	}
+	return Op{K: "cbatch", Items: items}
+}
+
 func (g *planner) truncNote(c int, keepThrough uint64) {
 	pc := &g.ch[c]
 	if keepThrough < pc.leo {
@@ -352,6 +392,9 @@ func (g *planner) mutOp(c int) Op {
 	x := g.r.IntN(100)
 	if g.p.AppendHeavy && vh.Chance(g.r, 0.5) {
 		x = g.r.IntN(60)
+	}
+	if vh.Chance(g.r, g.p.BatchRate) {
+		return g.cbatchOp()
 	}
 	switch {
 	case x < 40:
